@@ -1,8 +1,26 @@
 /-
   C08 — Every evaluator fills exactly the seats asked for, with valid distinct winners.
-  Property theorems only (namespace VL.C08): the two shape schemata and their instances for the modelled
-  evaluators.  Instances proved here: plurality / get_n_best, QuotaSelector (C09 model), highest averages (C01 model).
-  Instances for further families live with the property that owns their model and are listed in the evidence.
+  Namespace VL.C08.  The two result-shape schemata live in Lemmas/ShapeDefs.lean:
+    `SelShape cands n r`   exactly `n` places; every entry a candidate of `cands` or a tie of such candidates; nobody
+                           elected twice; a tie object occurs fewer times than it has members; nobody both elected and tied
+    `DistShape(I) cands r` positive awards, keys are candidates of `cands` or ties of them (no key twice) — plus the seat total
+    `SeatlessShape cands r` distinct candidates of `cands` (selectors called without a number of seats)
+  Per evaluator family ONE shape theorem (an instance of a schema, under explicit decidable well-formedness and
+  `1 ≤ n ≤ #candidates present`) and ONE refusal theorem (the model's error outcomes ⊆ {VotingSystemError,
+  NotImplementedError}; where the code does otherwise: `…_partial` naming the exact extra outcomes + a `…_witness`
+  by `decide +kernel`).  The models are the ones the owning properties validated against the code; the C08 driver
+  (VotelibDriver/C08.lean) evaluates exactly these functions on every generated case.
+
+  this file:  plurality / get_n_best (C09), QuotaSelector (C09), highest averages (C01), LargestRemainder /
+              QuotaDistributor (C02), Copeland / Schulze / minimax (C05), positional voting and AV / SAV
+              (C13 converters + Plurality, composed in VotelibModel/ShapeCompose.lean), thresholds / open list /
+              list tie-breaker (C16), InputOrderSelector
+  Lemmas/ShapeRankedT2.lean:       Kemeny-Young, ranked pairs (partial: open finding), Condorcet winner / Smith /
+              Schwartz sets, Benham, Tideman alternative, Bucklin one seat (partial: open findings)
+  Lemmas/ShapeSTV.lean:            TransferableVoteSelector / TransferableVoteDistributor (C03/C04)
+  Lemmas/ShapeCardinal*.lean:      score voting, SPAV, PAV, majority judgment, STAR, allocated score (C12)
+  Lemmas/ShapeQuotaSubtract.lean:  the 'subtract' over-award policy of LargestRemainder / QuotaDistributor
+  Lemmas/ShapeSequential.lean:     Baldwin, PreferenceAddition for n seats (model VotelibModel/ShapeSequential.lean)
 -/
 import VotelibProofs.Lemmas.ShapeDefs
 import VotelibProofs.Props.C01
@@ -172,6 +190,15 @@ theorem alternative_threshold_shape (partials : List Seatless) (votes : Votes) (
   refine ⟨hnd, fun c hc => ?_⟩
   obtain ⟨f, hf, r, hr, hcr⟩ := (hmem c).mp hc
   exact hparts f hf r hr c hcr
+
+/-- **InputOrderSelector**: the first `n` keys of the votes dictionary -/
+theorem input_order_shape (votes : Votes) (hwf : C09.WF votes) (n : Nat) (hlen : n ≤ votes.length) :
+    SelShape (keys votes) n (Shape.inputOrderSelector votes n) := by
+  unfold Shape.inputOrderSelector
+  refine SelShape.of_cands ?_ (hwf.sublist (List.take_sublist _ _)) (fun c hc => List.mem_of_mem_take hc)
+  rw [List.length_take]
+  have : (keys votes).length = votes.length := by simp [keys]
+  omega
 
 end thresholds
 
